@@ -107,7 +107,9 @@ impl Runner for BashRunner {
         let shell = self.shell.to_owned();
 
         // render the bash script
-        let state_directory_str = self.state_directory.to_string_lossy();
+        // the path is quoted for the shell: it may hold any character
+        let state_directory_str =
+            shell_escape::unix::escape(self.state_directory.to_string_lossy()).to_string();
         let expression = BASH_TEMPLATE
             .replace("{state_directory}", &state_directory_str)
             .replace("{name}", name)
